@@ -2,6 +2,7 @@ package executor
 
 import (
 	"context"
+	"sync"
 
 	"github.com/vektah/gqlparser/v2/ast"
 	"github.com/vektah/gqlparser/v2/gqlerror"
@@ -14,6 +15,18 @@ import (
 )
 
 const parserTokenNoLimit = 0
+
+// validatorRulesMu guards gqlparser's process-wide rule list: the rule swap parseQuery performs for
+// SetDisableSuggestion(true) rewrites that list on every uncached request, concurrently with the
+// Validate calls (and swaps) of every other request in the process.
+var validatorRulesMu sync.RWMutex
+
+// validate runs validator.Validate against a rule list no swap is rewriting at the same time.
+func validate(schema *ast.Schema, doc *ast.QueryDocument) gqlerror.List {
+	validatorRulesMu.RLock()
+	defer validatorRulesMu.RUnlock()
+	return validator.Validate(schema, doc)
+}
 
 // Executor executes graphql queries against a schema.
 type Executor struct {
@@ -225,14 +238,16 @@ func (e *Executor) parseQuery(
 
 	// swap out the FieldsOnCorrectType rule with one that doesn't provide suggestions
 	if e.disableSuggestion {
+		validatorRulesMu.Lock()
 		validator.RemoveRule("FieldsOnCorrectType")
 
 		rule := rules.FieldsOnCorrectTypeRuleWithoutSuggestions
 		// rule may already have been added
 		validator.ReplaceRule(rule.Name, rule.RuleFunc)
+		validatorRulesMu.Unlock()
 	}
 
-	listErr := validator.Validate(e.es.Schema(), doc)
+	listErr := validate(e.es.Schema(), doc)
 	if len(listErr) != 0 {
 		for _, e := range listErr {
 			errcode.Set(e, errcode.ValidationFailed)
